@@ -29,7 +29,7 @@ def main(pid: str, tier: str, runs: int, show: int) -> int:
     for oracle, hits in sorted(by.items()):
         print("=" * 70)
         print(oracle, len(hits))
-        regions = collections.Counter(json.dumps({k: v for k, v in h[1].facts.items() if k in ("op", "mode", "depth", "wrappers", "pred_why", "exc", "nlayers")}, sort_keys=True) for h in hits)
+        regions = collections.Counter(json.dumps({k: v for k, v in h[1].facts.items() if k not in ("pred", "nsegs", "outer")}, sort_keys=True) for h in hits)
         for r, c in regions.most_common(8):
             print("   ", c, r)
         if oracle.startswith("KNOWN"):
